@@ -171,7 +171,7 @@ def rules_new(prog, res, want=("A-pre", "A-len", "A-ext", "A-dig", "A-cmp", "A-o
         for x in okr["term"].args[3]:
             if _mentions_outside(x, b1, L):
                 bad.append("Ok value: " + show(x, names))
-        res.ob("A-len", "new | header byte 1 influences the result only through L", not bad, "; ".join(bad[:3]), m.loc(okr))
+        res.ob("A-res", "new | header byte 1 influences the result only through L (the six reserved bits are ignored)", not bad, "; ".join(bad[:3]), m.loc(okr))
     else:
         res.ob("A-len", "new | L = ((frame_data[1] & 3) << 8) | frame_data[2], reserved bits ignored", False,
                "no length term could be identified (no extent guard)", m.loc(okr))
